@@ -1,6 +1,772 @@
-//! Crash-point, torn-write and I/O-fault enumeration over a journalled history (C02 C07 C10 C12).
-use crate::harness::{Case, CaseOut, Fault};
-use crate::world::{Cfg, Step};
-pub fn run_faulted(_case: &Case, _cfg: &Cfg, _steps: &[Step], _fault: &Fault) -> CaseOut {
-    CaseOut::default()
+//! Crash-point, torn-write and I/O-fault enumeration over a journalled history
+//! (C02, C07, C10, C12 crash part, C08 recovery part).
+//!
+//! The history is executed once fault-free on a journalling SimDisk with model snapshots at
+//! every call boundary. Then every journal prefix (optionally plus a byte prefix of the next
+//! write) is materialised into a fresh disk, reopened with open(true) and scanned; the
+//! observation must equal the model snapshot before or after the call that owns the next op.
+
+use crate::disk::{self, Disk, Files, JKind, JOp};
+use crate::exec::{self, Guarded};
+use crate::gen::G;
+use crate::harness::{Body, Case, CaseOut, Fault};
+use crate::model::Model;
+use crate::rng::Rng;
+use crate::world::{open_core, CallSnap, Cfg, Res, ScanMode, Step, Viol, World};
+use hypercore::Hypercore;
+
+pub struct Obs {
+    pub length: u64,
+    pub byte_length: u64,
+    pub contiguous: u64,
+    pub writeable: bool,
+    pub fork: u64,
+    pub has: Vec<bool>,
+    pub get: Vec<Result<Option<Vec<u8>>, String>>,
+    pub died: Option<String>,
+    pub pk_ok: bool,
+}
+
+pub fn observe(core: &mut Option<Hypercore>, upto: u64, pk: &ed25519_dalek::VerifyingKey) -> Obs {
+    let c = core.as_ref().unwrap();
+    let info = c.info();
+    let mut o = Obs {
+        length: info.length,
+        byte_length: info.byte_length,
+        contiguous: info.contiguous_length,
+        writeable: info.writeable,
+        fork: info.fork,
+        has: vec![],
+        get: vec![],
+        died: None,
+        pk_ok: c.key_pair().public == *pk,
+    };
+    for i in 0..upto {
+        let g = exec::guard_sync(|| core.as_ref().unwrap().has(i));
+        match g {
+            Guarded::Done(h) => o.has.push(h),
+            Guarded::Panic(m) | Guarded::Hang(m) => {
+                o.died = Some(format!("has({i}) panicked: {m}"));
+                return o;
+            }
+        }
+        let mut cc = core.take().unwrap();
+        let g = exec::run(async { cc.get(i).await });
+        match g {
+            Guarded::Done(Ok(v)) => {
+                o.get.push(Ok(v));
+                *core = Some(cc);
+            }
+            Guarded::Done(Err(e)) => {
+                o.get.push(Err(e.to_string()));
+                *core = Some(cc);
+            }
+            Guarded::Panic(m) | Guarded::Hang(m) => {
+                let _ = std::panic::catch_unwind(std::panic::AssertUnwindSafe(move || drop(cc)));
+                o.died = Some(format!("get({i}) panicked: {m}"));
+                return o;
+            }
+        }
+    }
+    o
+}
+
+/// None = equal; Some(first difference)
+pub fn diff(o: &Obs, m: &Model) -> Option<String> {
+    if o.length != m.length {
+        return Some(format!("length {} vs {}", o.length, m.length));
+    }
+    if o.byte_length != m.byte_length {
+        return Some(format!("byte_length {} vs {}", o.byte_length, m.byte_length));
+    }
+    if o.writeable != m.writable {
+        return Some(format!("writeable {} vs {}", o.writeable, m.writable));
+    }
+    if o.fork != 0 {
+        return Some(format!("fork {}", o.fork));
+    }
+    for i in 0..o.has.len() as u64 {
+        if o.has[i as usize] != m.has(i) {
+            return Some(format!("has({i}) {} vs {}", o.has[i as usize], m.has(i)));
+        }
+        match &o.get[i as usize] {
+            Ok(v) => {
+                if v.as_ref() != m.get(i) {
+                    return Some(format!(
+                        "get({i}) {} vs {}",
+                        crate::world::show_opt(v),
+                        crate::world::show_opt(&m.get(i).cloned())
+                    ));
+                }
+            }
+            Err(e) => return Some(format!("get({i}) failed: {e}")),
+        }
+    }
+    None
+}
+
+pub struct Base {
+    pub world: World,
+    pub journal: Vec<JOp>,
+    pub node: usize,
+}
+
+fn run_base(cfg: &Cfg, steps: &[Step], node: usize) -> Base {
+    let mut cfg = cfg.clone();
+    cfg.scan = ScanMode::None;
+    let mut w = World::new(cfg);
+    w.create_all();
+    w.run_steps(steps);
+    let journal = w.nodes[node].disk.lock().journal.clone();
+    Base { world: w, journal, node }
+}
+
+/// the call that owns journal index k (None if k == |J|)
+fn owner<'a>(base: &'a Base, k: usize) -> Option<&'a CallSnap> {
+    if k >= base.journal.len() {
+        return None;
+    }
+    let c = base.journal[k].call as usize;
+    base.world.calls.get(c)
+}
+
+/// model after the last call on the node
+fn final_model(base: &Base) -> Model {
+    base.world.nodes[base.node].model.clone()
+}
+
+pub struct PointResult {
+    pub viols: Vec<Viol>,
+    pub matched: Option<Model>,
+    pub opened: bool,
+}
+
+/// cuts for a torn write of n bytes
+pub fn tear_cuts(n: usize, r: &mut Rng) -> Vec<usize> {
+    let mut v: Vec<usize> = vec![];
+    if n <= 1 {
+        return v;
+    }
+    if n <= 64 {
+        return (1..n).collect();
+    }
+    for c in [1usize, 3, 4, 7, 8, 9, 10, 12, 16, 40, 41, 42, 44, 72, 73, 74, 76, 108, 109, 110] {
+        v.push(c);
+    }
+    for back in [1usize, 2, 4, 8, 9, 32, 33, 64, 65] {
+        if n > back {
+            v.push(n - back);
+        }
+    }
+    let mut m = 512;
+    while m < n {
+        v.push(m);
+        m += 512;
+    }
+    for _ in 0..8 {
+        v.push(1 + r.below((n - 1) as u64) as usize);
+    }
+    v.retain(|c| *c >= 1 && *c < n);
+    v.sort();
+    v.dedup();
+    v
+}
+
+struct PointCtx<'a> {
+    base: &'a Base,
+    prop_tear: bool,
+}
+
+/// Judge one crash point. `files` is the materialised disk.
+fn judge_point(
+    ctx: &PointCtx<'_>,
+    files: Files,
+    k: usize,
+    tear: Option<usize>,
+) -> (PointResult, Option<(Disk, Option<Hypercore>)>) {
+    let base = ctx.base;
+    let node = base.node;
+    let prefix = if ctx.prop_tear { "C07" } else { "C02" };
+    let mut viols: Vec<Viol> = vec![];
+    let own = owner(base, k);
+    let label = own.map(|c| c.label.clone()).unwrap_or_else(|| "end".into());
+    let step = own.map(|c| c.step).unwrap_or(-1);
+    let at = format!(
+        "crash after {k} of {} storage ops{} (next op {}; call in progress: {label}, step {step})",
+        base.journal.len(),
+        tear.map(|j| format!(" + {j} bytes of the next write")).unwrap_or_default(),
+        base.journal.get(k).map(|o| o.brief()).unwrap_or_else(|| "-".into()),
+    );
+    // allowed models
+    let allowed: Vec<Model> = match own {
+        None => vec![final_model(base)],
+        Some(c) => {
+            if k == c.j0 && tear.is_none() {
+                vec![c.before.clone()]
+            } else if c.before == c.after {
+                vec![c.before.clone()]
+            } else {
+                vec![c.before.clone(), c.after.clone()]
+            }
+        }
+    };
+    let in_create = own.map(|c| c.label == "create").unwrap_or(false);
+    let in_mro = own.map(|c| c.label == "make_read_only").unwrap_or(false);
+    let mut push = |viols: &mut Vec<Viol>, clause: String, msg: String| {
+        viols.push(Viol { clause, step, msg });
+    };
+    let disk = Disk::from_files(files);
+    disk.lock().journaling = true;
+    let cache = base.world.cfg.cache;
+    let g = exec::run(async { open_core(&disk, None, cache).await });
+    let r = Res::from(g);
+    let core = match r {
+        Res::Ok(c) => c,
+        Res::Err("EmptyStorage", _) if in_create => {
+            // the creating build() had not completed its first header write: nothing exists yet
+            return (PointResult { viols, matched: None, opened: false }, None);
+        }
+        other => {
+            let b = crate::world::brief_unit(&other);
+            push(&mut viols, format!("{prefix}.open"), format!("{at}: reopen failed: {b}"));
+            if in_mro {
+                push(&mut viols, "C12.crash".into(), format!("{at}: reopen failed: {b}"));
+            }
+            return (PointResult { viols, matched: None, opened: false }, None);
+        }
+    };
+    let upto = allowed.iter().map(|m| m.length).max().unwrap_or(0).max(core.info().length.min(4096)) + 2;
+    let mut core = Some(core);
+    let pk = base.world.key.verifying_key();
+    let o = observe(&mut core, upto, &pk);
+    if let Some(d) = &o.died {
+        push(&mut viols, format!("{prefix}.state"), format!("{at}: recovered core unusable: {d}"));
+        return (PointResult { viols, matched: None, opened: true }, None);
+    }
+    let mut matched: Option<Model> = None;
+    let mut diffs = vec![];
+    for m in &allowed {
+        match diff(&o, m) {
+            None => {
+                matched = Some(m.clone());
+                break;
+            }
+            Some(d) => diffs.push(d),
+        }
+    }
+    if matched.is_none() {
+        let msg = format!(
+            "{at}: recovered state is neither before nor after the interrupted call: {}",
+            diffs
+                .iter()
+                .enumerate()
+                .map(|(i, d)| format!("[vs {}: {d}]", if allowed.len() == 1 { "required" } else if i == 0 { "before" } else { "after" }))
+                .collect::<Vec<_>>()
+                .join(" ")
+        );
+        push(&mut viols, format!("{prefix}.state"), msg.clone());
+        if in_mro {
+            push(&mut viols, "C12.crash".into(), msg);
+        }
+    }
+    if !o.pk_ok {
+        push(&mut viols, "C12.crash".into(), format!("{at}: recovered core has a different public key"));
+    }
+    if let Some(m) = &matched {
+        // C08 recovery clause: has() is part of the state match; contiguous_length too
+        let c = m.contiguous();
+        if o.contiguous != c {
+            push(
+                &mut viols,
+                "C08.crash-contig".into(),
+                format!("{at}: recovered contiguous_length {} but first missing index is {c}", o.contiguous),
+            );
+        }
+    }
+    (PointResult { viols, matched, opened: true }, Some((disk, core)))
+}
+
+/// generator of a short suffix on the recovered node
+pub fn gen_suffix(r: &mut Rng, node: usize, m: &Model, replicas: u8) -> Vec<Step> {
+    let mut g = G::new(0x3ff00 + r.below(1 << 12));
+    g.len = m.length;
+    let n = r.range(3, 5) as usize;
+    let mut steps: Vec<Step> = vec![];
+    if node == 0 {
+        let mix = crate::gen::Mix { append: 5, batch: 2, clear: 3, read: 2, reopen: 2, mro: 0 };
+        steps = crate::gen::writer_history(r, &mut g, n, mix);
+        if !m.writable {
+            steps.retain(|s| !matches!(s, Step::Append { .. } | Step::Batch { .. }));
+        }
+    } else {
+        let _ = replicas;
+        for _ in 0..n {
+            steps.push(match r.below(6) {
+                0 => Step::Reopen { n: node as u8 },
+                1 => Step::Get { n: node as u8, index: r.below(m.length + 2) },
+                _ => Step::Sync { to: node as u8, req: crate::gen::rand_req(r) },
+            });
+        }
+    }
+    let pos = r.below(steps.len() as u64 + 1) as usize;
+    steps.insert(pos, Step::Reopen { n: node as u8 });
+    steps
+}
+
+/// World resumed from a recovered subject node; other nodes are restored from the base
+/// world's final disks. Returns None if some node cannot be opened (not judged here).
+fn resume(base: &Base, subject_disk: Disk, subject_core: Hypercore, model: Model) -> Option<World> {
+    let mut cfg = base.world.cfg.clone();
+    cfg.scan = ScanMode::Full;
+    let mut w = World::new(cfg);
+    w.truth = base.world.truth.clone();
+    w.reftree = base.world.reftree.clone();
+    for n in 0..w.nodes.len() {
+        if n == base.node {
+            w.nodes[n].disk = subject_disk.clone();
+            w.nodes[n].model = model.clone();
+        } else {
+            let files = base.world.nodes[n].disk.files();
+            let d = Disk::from_files(files);
+            d.lock().journaling = true;
+            let cache = w.cfg.cache;
+            let g = exec::run(async { open_core(&d, None, cache).await });
+            match Res::from(g) {
+                Res::Ok(c) => {
+                    w.nodes[n].core = Some(c);
+                    w.nodes[n].disk = d;
+                    w.nodes[n].model = base.world.nodes[n].model.clone();
+                    w.subscribe(n);
+                }
+                _ => return None,
+            }
+        }
+    }
+    w.nodes[base.node].core = Some(subject_core);
+    w.subscribe(base.node);
+    Some(w)
+}
+
+fn is_suffix_clause(c: &str) -> bool {
+    c.starts_with("C01.") || c.starts_with("C03.") || c.starts_with("CALL.")
+}
+
+/// Run a suffix under the C01 oracle from the matched model; re-tag its violations.
+fn run_suffix(
+    base: &Base,
+    disk: Disk,
+    core: Hypercore,
+    model: Model,
+    suffix: &[Step],
+    clause: &str,
+    at: &str,
+    k2: Option<usize>,
+    k2_seed: u64,
+    out: &mut CaseOut,
+) -> (Vec<Viol>, Option<usize>) {
+    let start_files = disk.files();
+    {
+        let mut st = disk.lock();
+        st.journal.clear();
+        st.journaling = true;
+    }
+    let Some(mut w) = resume(base, disk.clone(), core, model) else {
+        return (vec![], None);
+    };
+    let mut used_k2: Option<usize> = None;
+    w.run_steps(suffix);
+    out.count("suffix_runs", 1);
+    let mut v: Vec<Viol> = w
+        .viols
+        .iter()
+        .filter(|v| is_suffix_clause(&v.clause))
+        .map(|v| Viol {
+            clause: clause.to_string(),
+            step: v.step,
+            msg: format!("{at}; then suffix step {}: [{}] {}", v.step, v.clause, v.msg),
+        })
+        .collect();
+    // second crash inside the suffix
+    if v.is_empty() && w.aborted.is_none() {
+        let j2 = disk.lock().journal.clone();
+        let kk = match k2 {
+            Some(k) => Some(k.min(j2.len())),
+            None if k2_seed != 0 && !j2.is_empty() => {
+                Some(Rng::new(k2_seed, &[j2.len() as u64]).below(j2.len() as u64 + 1) as usize)
+            }
+            _ => None,
+        };
+        if let Some(kk) = kk {
+            used_k2 = Some(kk);
+            out.count("double_crash_points", 1);
+            let mut files = start_files.clone();
+            for op in &j2[..kk] {
+                disk::apply(&mut files, op);
+            }
+            let base2 = Base { journal: j2, node: base.node, world: w };
+            let ctx = PointCtx { base: &base2, prop_tear: false };
+            let (pr, _) = judge_point(&ctx, files, kk, None);
+            for x in pr.viols {
+                if x.clause.starts_with("C02.") {
+                    v.push(Viol {
+                        clause: "C02.double".into(),
+                        step: x.step,
+                        msg: format!("{at}; second crash inside the suffix: {}", x.msg),
+                    });
+                }
+            }
+        }
+    }
+    (v, used_k2)
+}
+
+pub fn run_faulted(case: &Case, cfg: &Cfg, steps: &[Step], fault: &Fault) -> CaseOut {
+    match fault {
+        Fault::CrashAll { node, tear, suffix_seed, double, sample } => {
+            crash_all(case, cfg, steps, *node as usize, *tear, *suffix_seed, *double, *sample)
+        }
+        Fault::Crash { node, k, tear, suffix, k2 } => {
+            crash_one(cfg, steps, *node as usize, *k, *tear, suffix, *k2)
+        }
+        Fault::FailAll { node, suffix_seed } => fail_all(case, cfg, steps, *node as usize, *suffix_seed),
+        Fault::Fail { node, op, suffix } => {
+            let mut out = CaseOut::default();
+            fail_one(cfg, steps, *node as usize, *op, Some(suffix), 0, &mut out);
+            out
+        }
+        Fault::None => unreachable!(),
+    }
+}
+
+fn base_out(base: &Base, steps: &[Step]) -> CaseOut {
+    let mut out = CaseOut::default();
+    out.log_hash = base.world.log.0;
+    out.stats = base.world.stats.clone();
+    out.states = base.world.distinct_states.clone();
+    out.sim_steps = base.world.stats.calls;
+    out.nontrivial = steps.iter().any(|s| s.is_mutating());
+    out
+}
+
+#[allow(clippy::too_many_arguments)]
+fn crash_all(
+    case: &Case,
+    cfg: &Cfg,
+    steps: &[Step],
+    node: usize,
+    tear: bool,
+    suffix_seed: u64,
+    double: bool,
+    sample: u32,
+) -> CaseOut {
+    let base = run_base(cfg, steps, node);
+    let mut out = base_out(&base, steps);
+    if let Some(a) = &base.world.aborted {
+        // the fault-free history itself failed: that is C01/C03's finding, not judged here
+        out.aborted = Some(format!("base history failed: {a}"));
+        return out;
+    }
+    let nj = base.journal.len();
+    let mut points: Vec<usize> = (0..=nj).collect();
+    let mut r = Rng::new(suffix_seed, &[nj as u64, 77]);
+    if sample > 0 && points.len() > sample as usize {
+        let mut keep: std::collections::BTreeSet<usize> = Default::default();
+        for c in &base.world.calls {
+            if c.node as usize == node {
+                for p in [c.j0, c.j0 + 1, c.j1.saturating_sub(1), c.j1] {
+                    if p <= nj {
+                        keep.insert(p);
+                    }
+                }
+            }
+        }
+        while keep.len() < sample as usize {
+            keep.insert(r.below(nj as u64 + 1) as usize);
+        }
+        points = keep.into_iter().collect();
+        points.truncate(sample as usize * 2);
+    }
+    let ctx = PointCtx { base: &base, prop_tear: tear };
+    let mut files: Files = Default::default();
+    let mut applied = 0usize;
+    let mut log = crate::rng::Digest(out.log_hash);
+    for &k in &points {
+        crate::exec::wd_touch();
+        while applied < k {
+            disk::apply(&mut files, &base.journal[applied]);
+            applied += 1;
+        }
+        let mut cuts: Vec<Option<usize>> = vec![];
+        if tear {
+            if k < nj {
+                if let JKind::Write { data, .. } = &base.journal[k].kind {
+                    let mut rr = Rng::new(suffix_seed, &[k as u64, 5]);
+                    for c in tear_cuts(data.len(), &mut rr) {
+                        cuts.push(Some(c));
+                    }
+                }
+            }
+        } else {
+            cuts.push(None);
+        }
+        for cut in cuts {
+            let mut f = files.clone();
+            if let Some(j) = cut {
+                disk::apply_torn(&mut f, &base.journal[k], j);
+                out.count("torn_writes", 1);
+            } else {
+                out.count("crash_points", 1);
+            }
+            let (pr, live) = judge_point(&ctx, f, k, cut);
+            log.u64(k as u64);
+            log.u64(cut.map(|c| c as u64 + 1).unwrap_or(0));
+            log.u64(pr.viols.len() as u64);
+            log.u64(pr.matched.as_ref().map(|m| m.digest()).unwrap_or(1));
+            if pr.matched.is_some() {
+                out.count("recovered_ok", 1);
+            }
+            let mut suffix_used: Vec<Step> = vec![];
+            let mut k2_used: Option<usize> = None;
+            let mut viols = pr.viols;
+            // suffix on a seeded third of the clean crash points
+            if viols.is_empty() && !tear {
+                if let (Some(m), Some((d, Some(core)))) = (pr.matched.clone(), live) {
+                    let mut sr = Rng::new(suffix_seed, &[k as u64, 9]);
+                    if sr.below(3) == 0 {
+                        suffix_used = gen_suffix(&mut sr, node, &m, cfg.replicas);
+                        let at = format!("crash after {k} of {nj} storage ops, recovered ok");
+                        let k2seed = if double { sr.next() | 1 } else { 0 };
+                        let (sv, kk) = run_suffix(&base, d, core, m, &suffix_used, "C02.suffix", &at, None, k2seed, &mut out);
+                        k2_used = kk;
+                        viols.extend(sv);
+                    }
+                }
+            }
+            if !viols.is_empty() && out.viols.is_empty() {
+                // concretise
+                let conc = Case {
+                    prop: case.prop.clone(),
+                    family: case.family.clone(),
+                    run: case.run,
+                    body: Body::World {
+                        cfg: cfg.clone(),
+                        steps: steps.to_vec(),
+                        fault: Fault::Crash { node: node as u8, k, tear: cut, suffix: suffix_used.clone(), k2: k2_used },
+                    },
+                };
+                out.concrete = Some(Box::new(conc));
+                out.viols = viols;
+                out.log_hash = log.0;
+                return out;
+            }
+        }
+    }
+    out.log_hash = log.0;
+    out
+}
+
+fn crash_one(
+    cfg: &Cfg,
+    steps: &[Step],
+    node: usize,
+    k: usize,
+    tear: Option<usize>,
+    suffix: &[Step],
+    k2: Option<usize>,
+) -> CaseOut {
+    let base = run_base(cfg, steps, node);
+    let mut out = base_out(&base, steps);
+    if let Some(a) = &base.world.aborted {
+        out.aborted = Some(format!("base history failed: {a}"));
+        return out;
+    }
+    let k = k.min(base.journal.len());
+    let files = disk::materialize(&base.journal, k, tear);
+    let ctx = PointCtx { base: &base, prop_tear: tear.is_some() };
+    let (pr, live) = judge_point(&ctx, files, k, tear);
+    out.count(if tear.is_some() { "torn_writes" } else { "crash_points" }, 1);
+    let mut viols = pr.viols;
+    if viols.is_empty() && !suffix.is_empty() {
+        if let (Some(m), Some((d, Some(core)))) = (pr.matched, live) {
+            let at = format!("crash after {k} storage ops, recovered ok");
+            // replay of a double-crash violation: the second crash point is re-derived the same
+            // way the enumeration derived it (seeded by the first crash point)
+            let (sv, _) = run_suffix(&base, d, core, m, suffix, "C02.suffix", &at, k2, 0, &mut out);
+            viols.extend(sv);
+        }
+    }
+    let mut log = crate::rng::Digest(out.log_hash);
+    log.u64(k as u64);
+    log.u64(viols.len() as u64);
+    out.log_hash = log.0;
+    out.viols = viols;
+    out
+}
+
+// ---------------------------------------------------------------------------------------------
+// C10: one injected I/O error at every storage-operation index
+
+fn fail_all(case: &Case, cfg: &Cfg, steps: &[Step], node: usize, suffix_seed: u64) -> CaseOut {
+    let base = run_base(cfg, steps, node);
+    let mut out = base_out(&base, steps);
+    if let Some(a) = &base.world.aborted {
+        out.aborted = Some(format!("base history failed: {a}"));
+        return out;
+    }
+    let total_ops = base.world.nodes[node].disk.ops();
+    let mut log = crate::rng::Digest(out.log_hash);
+    for op in 0..total_ops {
+        crate::exec::wd_touch();
+        let mut sub = CaseOut::default();
+        let suffix = fail_one(cfg, steps, node, op, None, suffix_seed, &mut sub);
+        for (k, v) in &sub.counters {
+            out.count(k, *v);
+        }
+        log.u64(op);
+        log.u64(sub.viols.len() as u64);
+        log.u64(sub.log_hash);
+        if !sub.viols.is_empty() {
+            let conc = Case {
+                prop: case.prop.clone(),
+                family: case.family.clone(),
+                run: case.run,
+                body: Body::World {
+                    cfg: cfg.clone(),
+                    steps: steps.to_vec(),
+                    fault: Fault::Fail { node: node as u8, op, suffix },
+                },
+            };
+            out.concrete = Some(Box::new(conc));
+            out.viols = sub.viols;
+            out.log_hash = log.0;
+            return out;
+        }
+    }
+    out.log_hash = log.0;
+    out
+}
+
+/// Re-executes the history with an I/O error injected at storage op `op` of `node`.
+/// Returns the suffix that was used.
+fn fail_one(
+    cfg: &Cfg,
+    steps: &[Step],
+    node: usize,
+    op: u64,
+    suffix: Option<&Vec<Step>>,
+    suffix_seed: u64,
+    out: &mut CaseOut,
+) -> Vec<Step> {
+    let mut cfg2 = cfg.clone();
+    cfg2.scan = ScanMode::None;
+    let mut w = World::new(cfg2);
+    w.stop_on_fault = true;
+    w.nodes[node].disk.lock().fail_at = Some(op);
+    w.create_all();
+    if w.aborted.is_none() {
+        w.run_steps(steps);
+    }
+    out.log_hash = w.log.0;
+    let fired = w.nodes[node].disk.lock().fail_fired.clone();
+    let Some((_, call_no, what)) = fired else {
+        // history diverged before reaching op (cannot happen on a deterministic run)
+        out.count("io_fault_not_reached", 1);
+        return vec![];
+    };
+    out.count("io_faults", 1);
+    out.count(&format!("io_fault_{}", what.split('.').last().unwrap_or("op")), 1);
+    let mut viols: Vec<Viol> = vec![];
+    let call = w.calls.get(call_no as usize).cloned();
+    let Some(call) = call else {
+        // fault fired outside any public call (scan): not judged
+        return vec![];
+    };
+    let at = format!(
+        "I/O error injected at storage op #{op} ({what}) during {} (step {})",
+        call.label, call.step
+    );
+    if call.crashed {
+        viols.push(Viol { clause: "C10.ret".into(), step: call.step, msg: format!("{at}: the call panicked or hung instead of returning an error") });
+    } else if call.returned_ok {
+        viols.push(Viol { clause: "C10.ret".into(), step: call.step, msg: format!("{at}: the call returned success") });
+    }
+    // drop the instance, reopen fault-free
+    {
+        let mut st = w.nodes[node].disk.lock();
+        st.fail_at = None;
+    }
+    let old = w.nodes[node].core.take();
+    let _ = std::panic::catch_unwind(std::panic::AssertUnwindSafe(move || drop(old)));
+    w.nodes[node].rx.clear();
+    let disk = w.nodes[node].disk.clone();
+    let cache = w.cfg.cache;
+    let g = exec::run(async { open_core(&disk, None, cache).await });
+    let r = Res::from(g);
+    let in_create = call.label == "create";
+    let mut used_suffix: Vec<Step> = vec![];
+    match r {
+        Res::Ok(core) => {
+            let allowed: Vec<Model> = if call.before == call.after {
+                vec![call.before.clone()]
+            } else {
+                vec![call.before.clone(), call.after.clone()]
+            };
+            let upto = allowed.iter().map(|m| m.length).max().unwrap_or(0) + 2;
+            let mut core = Some(core);
+            let pk = w.key.verifying_key();
+            let o = observe(&mut core, upto, &pk);
+            let mut matched = None;
+            let mut diffs = vec![];
+            if let Some(d) = &o.died {
+                viols.push(Viol { clause: "C10.state".into(), step: call.step, msg: format!("{at}: after reopen the core is unusable: {d}") });
+            } else {
+                for m in &allowed {
+                    match diff(&o, m) {
+                        None => {
+                            matched = Some(m.clone());
+                            break;
+                        }
+                        Some(d) => diffs.push(d),
+                    }
+                }
+                if matched.is_none() {
+                    viols.push(Viol {
+                        clause: "C10.state".into(),
+                        step: call.step,
+                        msg: format!("{at}: after reopen the state is neither before nor after the failed call: {diffs:?}"),
+                    });
+                }
+            }
+            if let (Some(m), Some(c)) = (matched, core) {
+                if viols.is_empty() {
+                    let sfx: Vec<Step> = match suffix {
+                        Some(s) => s.clone(),
+                        None => {
+                            let mut sr = Rng::new(suffix_seed, &[op, 3]);
+                            if sr.below(2) == 0 {
+                                gen_suffix(&mut sr, node, &m, cfg.replicas)
+                            } else {
+                                vec![]
+                            }
+                        }
+                    };
+                    if !sfx.is_empty() {
+                        // rebuild a base view for resume(): other nodes from this world's disks
+                        let journal = vec![];
+                        let basev = Base { world: w, journal, node };
+                        let (sv, _) = run_suffix(&basev, disk.clone(), c, m, &sfx, "C10.suffix", &at, None, 0, out);
+                        viols.extend(sv);
+                        used_suffix = sfx;
+                    }
+                }
+            }
+        }
+        Res::Err("EmptyStorage", _) if in_create => {}
+        other => {
+            let b = crate::world::brief_unit(&other);
+            viols.push(Viol { clause: "C10.open".into(), step: call.step, msg: format!("{at}: fault-free reopen failed: {b}") });
+        }
+    }
+    out.viols = viols;
+    used_suffix
 }
